@@ -1110,3 +1110,59 @@ def rule_case_dag_worlds(ctx: Ctx, out: Collector) -> None:
     else:
         out.bad('SW-8', cons, p.loc(runner, runner.node), 'the selected case cannot be computed from the sub-dag that is run for it: '
                 + '; '.join(sorted(set(problems))[:3]) + ' - the case never runs, its consumer waits for ever (or gets a stale value)', table=table)
+
+
+def rule_stores_independent(ctx: Ctx, out: Collector) -> None:
+    """ST-4: the stores of the node storage that readiness, ordering and routing read are independent of each other: after a node
+    was re-armed (hidden in every store), publishing into ONE store (the manager marks a node as processed when its re-execution
+    starts) leaves the node hidden in every OTHER store - otherwise the result of the previous iteration becomes visible again
+    while the node is running and its consumers start with a stale input.  The storage is built by its own constructor (full
+    dataclass protocol, __post_init__ included), so stores that share their hidden-key set are seen as what they are."""
+    from ..absint import hidden_dict_api
+    p = ctx.p
+    st = ctx.storage_class()
+    stores = _readiness_stores(ctx)
+    if len(stores) < 2:
+        raise AnalysisError(f'readiness stores not found ({stores}) (ST-4 anchor vanished)')
+    problems: List[str] = []
+    n = 0
+    for target in stores:
+        def run(oracle: Oracle, target=target):
+            interp = Interp(p, oracle)
+            interp.eager_dataclasses = True
+            storage = interp.construct(AClass(st), [], {})
+            hds = {}
+            for s in stores:
+                hd = storage.attrs.get(s)
+                if not (isinstance(hd, AObj) and isinstance(hd.cls, ClassInfo)):
+                    raise AnalysisError(f'store {s} of a constructed storage is not a hidden dictionary (ST-4 world)')
+                hd.attrs.setdefault('data', {})      # what UserDict.__init__ (not in the repository) creates
+                hds[s] = hd
+            for s in stores:
+                interp.call_unit(hidden_dict_api(p, hds[s].cls)['publish'], ['K', 1], {}, hds[s])
+            for s in stores:
+                interp.call_unit(hidden_dict_api(p, hds[s].cls)['hide'], ['K'], {}, hds[s])
+            before = {s: presence_of(hds[s], 'K', p) for s in stores}
+            interp.call_unit(hidden_dict_api(p, hds[target].cls)['publish'], ['K', 2], {}, hds[target])
+            return before, {s: presence_of(hds[s], 'K', p) for s in stores}
+        for o in enumerate_outcomes(run):
+            n += 1
+            if o[0] != 'value':
+                problems.append(f'publishing into {target}: raises {o[1]}')
+                continue
+            before, after = o[1]
+            for s in stores:
+                if before[s] != 'hidden':
+                    problems.append(f'{s}: the node is {before[s]} after it was hidden in every store')
+                elif s != target and after[s] != 'hidden':
+                    problems.append(f'publishing into {target} makes the hidden entry of {s} {after[s]}')
+            if after[target] != 'visible':
+                problems.append(f'publishing into {target} leaves its own entry {after[target]}')
+    cons = f'{st.module.name}::{st.name}::the stores are independent of each other'
+    where = p.loc(st.module, st.node)
+    if problems:
+        out.bad('ST-4', cons, where, 'the stores of the storage are coupled: ' + '; '.join(sorted(set(problems))[:3])
+                + ' - a re-armed node shows the previous iteration\'s entry as soon as one store is written', stores=stores)
+    else:
+        out.ok('ST-4', cons, where, f'{n} world(s): after re-arming, publishing into one of {", ".join(stores)} leaves the others hidden',
+               stores=stores)
